@@ -416,8 +416,12 @@ def run(case):
             def key(c):
                 # canonical form after the optimiser's merging of axis-parallel runs (idempotent,
                 # so both sides get the same key whenever they draw the same contour)
-                m = R.merge_axis_cyclic(R.clean_cycle(*c))
-                return R._flat(R.canon_cycle(m)) if m else []
+                cl = R.clean_cycle(*c)
+                m = R.merge_axis_cyclic(cl)
+                # (zero-area contours collapse to nothing when merged: the unmerged canonical
+                # form breaks the tie between several of them)
+                return (R._flat(R.canon_cycle(m)) if m else [],
+                        R._flat(R.canon_cycle(cl)) if cl else [])
             ref = sorted(ref, key=lambda c: key(R.round_cycle(*c)))
             out = sorted(out, key=key)
         ok, how, detail = compare_glyph(ref, out, tol, case["optimizeCFF"], npoints)
